@@ -48,6 +48,35 @@ example : sortedByTimeB [⟨0, 2, 0⟩, ⟨2, 3, 1⟩, ⟨6, 7, 2⟩] = true ∧
     nonNegB [⟨0, 3, 0⟩, ⟨3, 5, 1⟩, ⟨6, 9, 2⟩] = true ∧
     fullyContainedIn [⟨0, 2, 0⟩, ⟨2, 3, 1⟩, ⟨6, 7, 2⟩] [⟨0, 3, 0⟩, ⟨3, 5, 1⟩, ⟨6, 9, 2⟩] = .ok [0, 0, 2] := by decide
 
+/-! ### split_by_containment -/
+
+/-- `split_by_containment` returns one list per container holding, in order, exactly the things that container
+contains — through `np.diff`, `_split`, `np.unique`, `_get_empty_container_ids` and the `insert` loop.  Same
+precondition as `fcIn_spec`. -/
+theorem split_by_containment_spec (things containers : List Row)
+    (ht : sortedByTimeB things = true) (hc : sortedByTimeB containers = true)
+    (hn : nonOverlapB containers = true) (hpt : positiveRowsB things = true) (hnc : nonNegB containers = true) :
+    splitByContainment things containers = .ok (splitSpec subsetOf things containers) := by
+  have hnt : nonNegB things = true :=
+    nonNegB_iff.2 fun r hr => Int.le_of_lt (positiveRowsB_iff.1 hpt r hr)
+  rw [splitByContainment_eq_spec ht hc hnt hnc hn, splitSpec_congr hpt]
+
+/-- zero-length things allowed, with the instant reading of containment (see `fcIn_spec_instant`) -/
+theorem split_by_containment_spec_instant (things containers : List Row)
+    (ht : sortedByTimeB things = true) (hc : sortedByTimeB containers = true)
+    (hn : nonOverlapB containers = true) (hnt : nonNegB things = true) (hnc : nonNegB containers = true) :
+    splitByContainment things containers = .ok (splitSpec containedIn things containers) :=
+  splitByContainment_eq_spec ht hc hnt hnc hn
+
+example : splitByContainment [⟨0, 2, 0⟩, ⟨2, 3, 1⟩, ⟨4, 8, 2⟩, ⟨6, 7, 3⟩] [⟨0, 3, 0⟩, ⟨3, 5, 1⟩, ⟨6, 9, 2⟩] =
+    .ok [[⟨0, 2, 0⟩, ⟨2, 3, 1⟩], [], [⟨6, 7, 3⟩]] := by decide
+
+/-! ### diff -/
+
+/-- `strax.diff`: entry `i` is the start of row `i+1` minus the running maximum of the ends of rows `0..i`; any input -/
+theorem diff_spec (rows : List Row) : diffGaps rows = diffSpec rows :=
+  diffGaps_eq_spec rows
+
 /-! ### touching_windows -/
 
 /-- `touching_windows` returns for every container `(l, r)` with `l` = number of things that end at or before
@@ -102,6 +131,14 @@ theorem find_break_spec (data : List Row) (safeBreak notBefore : Int) (h : 2 ≤
 
 example : findBreakI [⟨0, 2, 0⟩, ⟨1, 5, 1⟩, ⟨6, 7, 2⟩, ⟨9, 10, 3⟩] 2 0 = .ok 3 ∧
     findBreakI [⟨0, 2, 0⟩, ⟨1, 5, 1⟩, ⟨6, 7, 2⟩, ⟨9, 10, 3⟩] 2 8 = .error Err.noBreakFound := by decide
+
+/-- `from_break` (not tolerant, at least two rows) returns the rows on the requested side of that first break and
+the start time of the row right of it, and fails exactly when `_find_break_i` does; the index is always in range. -/
+theorem from_break_spec (x : List Row) (safeBreak notBefore : Int) (left : Bool) (h : 2 ≤ x.length) :
+    (∀ i, findBreakSpec x safeBreak notBefore = .ok i → ∃ r, x[i]? = some r ∧
+      fromBreak x safeBreak notBefore left false = .ok (if left then x.take i else x.drop i, r.time)) ∧
+    (∀ e, findBreakSpec x safeBreak notBefore = .error e → fromBreak x safeBreak notBefore left false = .error e) :=
+  fromBreak_eq x safeBreak notBefore left h
 
 /-! ### abs_time_to_prev_next_interval -/
 
